@@ -13,6 +13,7 @@ pub(crate) use ::kani;
 pub mod c19_scalar;
 pub mod c19_fixed;
 pub mod c19_trig;
+pub mod c19_prng;
 pub mod stubs;
 
 #[cfg(not(kani))]
